@@ -667,8 +667,14 @@ func (w *World) Run(q *Q) {
 				q.RF, q.RI = w.identify("enum", w.GD.GetEnumDescriptorByGoType(ti.Ptr))
 				q.S = "enum"
 			case "typedef":
-				q.RF, q.RI = w.identify("typedef", w.GD.GetTypedefDescriptorByGoType(ti.Ptr))
+				d := w.GD.GetTypedefDescriptorByGoType(ti.Ptr)
+				q.RF, q.RI = w.identify("typedef", d)
 				q.S = "typedef"
+				// the default registry is shared by every program linked into the process: a typedef of another
+				// program is a legitimate answer if it has this very Go type (Go aliases of one type coincide)
+				if q.RF == -1 && d != nil && d.GetGoType() == rt {
+					q.RF, q.RI = -2, -2
+				}
 			}
 		case "togo": // descriptor of the definition (taken by position from the registered fd) -> Go type
 			fd := w.fd(q.F)
